@@ -21,7 +21,9 @@ RULE = (
     "if / while condition, assigned value, and all of these inside nested with blocks.  thorough: the full grid 23 "
     "contexts x 8 callee flags x 7 argument mixes x 6 positions, the nested grid 23 contexts x 4 inner modifier lists "
     "x 8 callee flags x 4 positions, plus random deeper programs.  non-trivial = some call passes a qubit to a callee "
-    "lacking a flag required at its position (the flag-subset oracle says reject for a call reason)."
+    "lacking a flag required at its position (the flag-subset oracle says reject for a call reason).  Whole-program cases: "
+    "one decorator object (`guppy(...)`, `guppy.declare(...)`) applied to several functions, all 7x8 flag pairs; a flagged "
+    "generic callee called / instantiated / used as a value next to its non-generic twin, all 7x8 flag pairs; corpus programs."
 )
 ASSUMPTIONS = [
     "the abstract form handed to the Lean model (flags of each callee, qubit-ness and subscript-ness of each place) "
@@ -114,6 +116,14 @@ class Printer:
                 assert st["q"] <= QPOOL and True
                 return f"q{st['q'] - 1}"
             idx = e[3] if len(e) > 3 and e[3] else None
+            if q and s == 2:      # component of a tuple element: the subscript is not the outermost access
+                st["ps"] = st.get("ps", 0) + 1
+                assert st["ps"] <= 2
+                return f"ps[{st['ps'] - 1}][{st['ps'] % 2}]"
+            if q and s == 3:      # field of a struct element
+                st["rs"] = st.get("rs", 0) + 1
+                assert st["rs"] <= 2
+                return f"rs[{st['rs'] - 1}].q"
             if q and s:
                 assert not st["whole"]
                 st["elem"] += 1
@@ -212,8 +222,9 @@ class Printer:
         body = self.stmts(prog["body"], 2 if prog["kind"] == "with" else 1)
         params = [f"q{i}: qubit" for i in range(QPOOL)] + [
             f"qs: array[qubit, {ARRN}]", "b: bool", "xs: array[bool, 2]", "n: nat", "c0: qubit", "c1: qubit",
+            "ps: array[tuple[qubit, qubit], 2]", "rs: array[R, 2]",
         ] + [f"k{i}: qubit" for i in range(KPOOL)] + [f"ks: array[qubit, {KSUB}]"] + [f"{k}: {v}" for k, v in sorted(self.locals_.items())]
-        src = "".join(self.globals_[k] for k in sorted(self.globals_))
+        src = "@guppy.struct\nclass R:\n    q: qubit\n" + "".join(self.globals_[k] for k in sorted(self.globals_))
         if prog["kind"] == "fn":
             u, c, d, p = prog["kw"]
             kw = [f"{n_}=True" for n_, v in zip(("unitary", "control", "dagger", "power"), (u, c, d, p)) if v]
@@ -457,6 +468,7 @@ LIT = ("l",)
 
 MIXES = {
     "q": [Q], "b": [B], "qb": [Q, B], "bq": [B, Q], "a": [PA], "s": [QS], "none": [],
+    "s2": [("p", 1, 2)], "s3b": [("p", 1, 3), B],
 }
 POSITIONS = ["stmt", "nested1", "nested2", "if", "while", "assign", "index_arg", "index_cond", "index_target", "index_nested"]
 
@@ -546,7 +558,15 @@ def rand_expr(rng, depth, budget, want_bool=True):
                 inner = ("c", inner[1], inner[2], "i", False) if inner[0] == "c" else call(rng.choice([0, 7]), [], "i")
                 args.append(("p", 1, 1, inner))
             else:
-                args.append(QS)
+                r2 = rng.random()
+                if r2 < 0.2 and budget.get("ps", 0) < 2:
+                    budget["ps"] = budget.get("ps", 0) + 1
+                    args.append(("p", 1, 2))
+                elif r2 < 0.4 and budget.get("rs", 0) < 2:
+                    budget["rs"] = budget.get("rs", 0) + 1
+                    args.append(("p", 1, 3))
+                else:
+                    args.append(QS)
         elif k < 0.52 and not budget["whole"] and budget["elem"] == 0:
             budget["whole"] = True
             args.append(PA)
@@ -732,9 +752,12 @@ def cases(ctx):
     corpus = os.path.join(vlib.VERIF, "corpus", "c24")
     if os.path.isdir(corpus):
         for fn in sorted(os.listdir(corpus)):
-            for r in json.load(open(os.path.join(corpus, fn))):
+            data = json.load(open(os.path.join(corpus, fn)))
+            if isinstance(data, dict):
+                continue          # whole-program witnesses ({"source", "expect"}): see program_cases
+            for r in data:
                 progs.append(_norm(r))
-    if ctx.replay_in:
+    if ctx.replay_in and "program" in ctx.replay_in["replay"]:
         progs.append(_norm(ctx.replay_in["replay"]["program"]))
     rng = ctx.rng
     g = [p_ for p_ in grid() if qubits_ok(p_)]          # drops resource-impossible combinations (qs[f(qs)])
@@ -759,7 +782,128 @@ def cases(ctx):
     return progs
 
 
+# ------------------------------------------------------------------ whole-program cases (source text + expected outcome per function)
+FLAG_KW = {0: "", 1: "control=True", 2: "dagger=True", 3: "control=True, dagger=True", 4: "power=True",
+           5: "control=True, power=True", 6: "dagger=True, power=True", 7: "unitary=True"}
+
+
+def _sub(f, g):
+    return f & g == f
+
+
+def reused_decorator_programs():
+    """one decorator object applied to several functions (`ctl = guppy(control=True)`, also guppy.declare(...)): every
+    function decorated with it must behave as declared.  expected by the flag-subset rule."""
+    out = []
+    for f in range(1, 8):
+        for g in range(8):
+            exp = "ok" if _sub(f, g) else "UnitaryCallError"
+            src = (
+                "from guppylang.std.quantum import qubit\n"
+                f"ctx = guppy({FLAG_KW[f]})\ndecl = guppy.declare({FLAG_KW[g]})\n"
+                "@decl\ndef callee_a(q: qubit) -> None: ...\n@decl\ndef callee_b(q: qubit) -> None: ...\n"
+                "@decl\ndef callee_c(q: qubit) -> None: ...\n"
+                "@ctx\ndef first(q: qubit) -> None:\n    callee_a(q)\n"
+                "@ctx\ndef second(q: qubit) -> None:\n    callee_b(q)\n"
+                "@ctx\ndef third(q: qubit) -> None:\n    callee_c(q)\n    callee_a(q)\n"
+            )
+            out.append({"name": f"reused:{f}:{g}", "source": src, "expect": {"first": exp, "second": exp, "third": exp},
+                        "meta": {"first": f, "second": f, "third": f}})
+    return out
+
+
+def generic_value_programs():
+    """a flagged GENERIC function called / used as a value / instantiated explicitly / passed on, inside a flagged
+    context: accepted exactly when the flag-subset rule says so, i.e. exactly when its non-generic twin is"""
+    out = []
+    for f in range(1, 8):
+        for g in range(8):
+            exp = "ok" if _sub(f, g) else "UnitaryCallError"
+            src = (
+                "from guppylang.std.quantum import qubit\nfrom collections.abc import Callable\n"
+                'T = guppy.type_var("T", copyable=True, droppable=True)\n'
+                f"@guppy.declare({FLAG_KW[g]})\ndef gen(q: qubit, x: T) -> None: ...\n"
+                f"@guppy.declare({FLAG_KW[g]})\ndef mono(q: qubit, x: int) -> None: ...\n"
+                f"@guppy({FLAG_KW[f]})\ndef call_gen(q: qubit) -> None:\n    gen(q, 1)\n"
+                f"@guppy({FLAG_KW[f]})\ndef call_mono(q: qubit) -> None:\n    mono(q, 1)\n"
+                f"@guppy({FLAG_KW[f]})\ndef inst_gen(q: qubit) -> None:\n    gen[int](q, 1)\n"
+            )
+            expect = {"call_gen": exp, "call_mono": exp, "inst_gen": exp}
+            if not f & D:      # `g = …` is an assignment: not allowed under dagger
+                src += (
+                    f"@guppy({FLAG_KW[f]})\ndef val_gen(q: qubit) -> None:\n    g = gen\n    g(q, 1)\n"
+                    f"@guppy({FLAG_KW[f]})\ndef val_mono(q: qubit) -> None:\n    g = mono\n    g(q, 1)\n"
+                    f"@guppy({FLAG_KW[f]})\ndef val_inst(q: qubit) -> None:\n    g = gen[int]\n    g(q, 1)\n"
+                )
+                expect.update({"val_gen": exp, "val_mono": exp, "val_inst": exp})
+            out.append({"name": f"generic:{f}:{g}", "source": src, "expect": expect, "meta": {}})
+    return out
+
+
+def program_cases(ctx):
+    out = []
+    corpus = os.path.join(vlib.VERIF, "corpus", "c24")
+    if os.path.isdir(corpus):
+        for fn in sorted(os.listdir(corpus)):
+            data = json.load(open(os.path.join(corpus, fn)))
+            if isinstance(data, dict) and "source" in data:
+                out.append({"name": "corpus:" + fn, "source": data["source"], "expect": data["expect"], "meta": {}})
+    if ctx.replay_in and "whole_program" in ctx.replay_in["replay"]:
+        out.append(ctx.replay_in["replay"]["whole_program"])
+    rp, gp = reused_decorator_programs(), generic_value_programs()
+    if ctx.quick:
+        out += ctx.rng.sample(rp, 14) + ctx.rng.sample(gp, 14)
+    else:
+        out += rp + gp
+    return out
+
+
+def tie_programs(ctx):
+    global _enabled
+    import feed
+    import guppylang
+
+    if not _enabled:
+        guppylang.enable_experimental_features()
+        _enabled = True
+    for pc in program_cases(ctx):
+        try:
+            m = feed.load(pc["source"])
+        except Exception as e:  # noqa: BLE001
+            ctx.violation("program:" + pc["name"], f"program does not load: {type(e).__name__}: {e}\n{pc['source']}",
+                          {"whole_program": pc})
+            continue
+        try:
+            for fn, want in pc["expect"].items():
+                kind, exc = feed.check_outcome(getattr(m, fn))
+                got = "ok" if kind == "ok" else feed.err_class(exc) if kind == "user" else "crash:" + type(exc).__name__
+                meta_ok = True
+                if got == "ok" and fn in pc.get("meta", {}):
+                    try:
+                        meta_ok = read_meta_of(feed.lower(getattr(m, fn)), fn) == [pc["meta"][fn]]
+                    except Exception:  # noqa: BLE001
+                        meta_ok = False
+                key = f"program:{pc['name']}:{fn}"
+                ctx.count(key, nontrivial=(want != "ok"), kind="program:" + pc["name"].split(":")[0] + ":" + got)
+                if got != want:
+                    ctx.violation(key, f"function `{fn}` is expected to give {want} (flag-subset rule: every function behaves as "
+                                  f"declared) but the real check() gives {got}:\n{pc['source']}", {"whole_program": pc, "function": fn, "real": got})
+                elif not meta_ok:
+                    ctx.violation(key + ":meta", f"`unitary` metadata of `{fn}` is not {pc['meta'][fn]}:\n{pc['source']}",
+                                  {"whole_program": pc, "function": fn})
+        finally:
+            feed.unload(m)
+
+
+def read_meta_of(g, name):
+    import hugr.ops as ops
+
+    return [g.hugr[n].metadata.get("unitary") for n in g.hugr
+            if isinstance(g.hugr[n].op, ops.FuncDefn) and g.hugr[n].op.f_name == name]
+
+
 def tie(ctx):
+    tie_programs(ctx)
     progs = cases(ctx)
     lines, idx = [], []
     for p in progs:
